@@ -3,22 +3,33 @@
 int verif_exc; C14_GHOSTS
 #include "x_exact.c"
 
-#define IN_GHOSTS size_t in_src_len, in_pos, in_vk, in_wpos; uint8_t in_sval, in_wval; \
+/* VERIF_SMALL: only for re-asking the verifier for a counterexample small enough to replay natively */
+#ifdef VERIF_SMALL
+#define SMALL __CPROVER_assume(in_src_len <= 4096 && in_pos <= 4096)
+#define SMALL_SIZE(n) __CPROVER_assume((n) <= 4096)
+#else
+#define SMALL
+#define SMALL_SIZE(n)
+#endif
+#define IN_GHOSTS size_t in_src_len, in_pos, in_vk, in_wpos; uint8_t in_sval, in_wval; SMALL; \
   g_src_len = in_src_len; g_pos = in_pos; g_vk = in_vk; g_wpos = in_wpos; g_sval = in_sval; g_wval = in_wval; \
   g_eof_seen = 0; g_err_seen = 0; g_chunk = 0; verif_exc = 0
 
-void h_readx(void) { IN_GHOSTS; int in_fd; void* d; size_t in_size; phosg_readx(in_fd, d, in_size); VERIF_REACH(); }
-void h_readx_str(void) { IN_GHOSTS; int in_fd; vstr* r; size_t in_size; phosg_readx_str(r, in_fd, in_size); VERIF_REACH(); }
-void h_writex(void) { IN_GHOSTS; int in_fd; const void* d; size_t in_size; phosg_writex(in_fd, d, in_size); VERIF_REACH(); }
+void h_readx(void) { IN_GHOSTS; int in_fd; void* d; size_t in_size; SMALL_SIZE(in_size); phosg_readx(in_fd, d, in_size); VERIF_REACH(); }
+void h_readx_str(void) { IN_GHOSTS; int in_fd; vstr* r; size_t in_size; SMALL_SIZE(in_size); phosg_readx_str(r, in_fd, in_size); VERIF_REACH(); }
+void h_writex(void) { IN_GHOSTS; int in_fd; const void* d; size_t in_size; SMALL_SIZE(in_size); phosg_writex(in_fd, d, in_size); VERIF_REACH(); }
 void h_writex_str(void) { IN_GHOSTS; int in_fd; const vstr* s; phosg_writex_str(in_fd, s); VERIF_REACH(); }
-void h_preadx(void) { IN_GHOSTS; int in_fd; void* d; size_t in_size; off_t in_offset; phosg_preadx(in_fd, d, in_size, in_offset); VERIF_REACH(); }
-void h_preadx_str(void) { IN_GHOSTS; int in_fd; vstr* r; size_t in_size; off_t in_offset; phosg_preadx_str(r, in_fd, in_size, in_offset); VERIF_REACH(); }
-void h_pwritex(void) { IN_GHOSTS; int in_fd; const void* d; size_t in_size; off_t in_offset; phosg_pwritex(in_fd, d, in_size, in_offset); VERIF_REACH(); }
+void h_preadx(void) { IN_GHOSTS; int in_fd; void* d; size_t in_size; off_t in_offset; SMALL_SIZE(in_size); phosg_preadx(in_fd, d, in_size, in_offset); VERIF_REACH(); }
+void h_preadx_str(void) { IN_GHOSTS; int in_fd; vstr* r; size_t in_size; off_t in_offset; SMALL_SIZE(in_size); phosg_preadx_str(r, in_fd, in_size, in_offset); VERIF_REACH(); }
+void h_pwritex(void) { IN_GHOSTS; int in_fd; const void* d; size_t in_size; off_t in_offset; SMALL_SIZE(in_size); phosg_pwritex(in_fd, d, in_size, in_offset); VERIF_REACH(); }
 void h_pwritex_str(void) { IN_GHOSTS; int in_fd; const vstr* s; off_t in_offset; phosg_pwritex_str(in_fd, s, in_offset); VERIF_REACH(); }
-void h_freadx(void) { IN_GHOSTS; C14_FILE* f; void* d; size_t in_size; phosg_freadx(f, d, in_size); VERIF_REACH(); }
-void h_freadx_str(void) { IN_GHOSTS; C14_FILE* f; vstr* r; size_t in_size; phosg_freadx_str(r, f, in_size); VERIF_REACH(); }
-void h_fwritex(void) { IN_GHOSTS; C14_FILE* f; const void* d; size_t in_size; phosg_fwritex(f, d, in_size); VERIF_REACH(); }
+void h_freadx(void) { IN_GHOSTS; C14_FILE* f; void* d; size_t in_size; SMALL_SIZE(in_size); phosg_freadx(f, d, in_size); VERIF_REACH(); }
+void h_freadx_str(void) { IN_GHOSTS; C14_FILE* f; vstr* r; size_t in_size; SMALL_SIZE(in_size); phosg_freadx_str(r, f, in_size); VERIF_REACH(); }
+void h_fwritex(void) { IN_GHOSTS; C14_FILE* f; const void* d; size_t in_size; SMALL_SIZE(in_size); phosg_fwritex(f, d, in_size); VERIF_REACH(); }
 void h_fwritex_str(void) { IN_GHOSTS; C14_FILE* f; const vstr* s; phosg_fwritex_str(f, s); VERIF_REACH(); }
 void h_fgetcx(void) { IN_GHOSTS; C14_FILE* f; phosg_fgetcx(f); VERIF_REACH(); }
-void h_read_str(void) { IN_GHOSTS; int in_fd; vstr* r; size_t in_size; phosg_read_str(r, in_fd, in_size); VERIF_REACH(); }
-void h_fread_str(void) { IN_GHOSTS; C14_FILE* f; vstr* r; size_t in_size; phosg_fread_str(r, f, in_size); VERIF_REACH(); }
+void h_read_str(void) { IN_GHOSTS; int in_fd; vstr* r; size_t in_size; SMALL_SIZE(in_size); phosg_read_str(r, in_fd, in_size); VERIF_REACH(); }
+void h_fread_str(void) { IN_GHOSTS; C14_FILE* f; vstr* r; size_t in_size; SMALL_SIZE(in_size); phosg_fread_str(r, f, in_size); VERIF_REACH(); }
+void h_load_file(void) { IN_GHOSTS; ssize_t in_stat_size; g_stat_size = in_stat_size; vstr* r; const vstr* fn; phosg_load_file(r, fn); VERIF_REACH(); }
+void h_save_file(void) { IN_GHOSTS; const vstr* fn; const void* d; size_t in_size; SMALL_SIZE(in_size); phosg_save_file(fn, d, in_size); VERIF_REACH(); }
+void h_save_file_str(void) { IN_GHOSTS; const vstr* fn; const vstr* s; phosg_save_file_str(fn, s); VERIF_REACH(); }
